@@ -345,13 +345,16 @@ const CGS_QUERIES: [&str; 30] = [
 
 /// Unit lists whose members already carry a prefix, with values large and small against them:
 /// each entry's printed numeral x printed unit must be the entry's own part.
-const LIST_QUERIES: [&str; 14] = [
+const LIST_QUERIES: [&str; 22] = [
     "5000 s -> ms;us", "123456789 s -> ms;us", "2000 m -> mm;um", "0.002 s -> ms;us", "5000000 m -> km;m;mm", "1e9 s -> hour;min;s", "12345.678 kg -> kg;g;mg",
     "1e7 g -> g;mg", "3 GiB -> MiB;KiB;byte", "1e12 byte -> kB;byte", "7.5 mile -> mile;yard;ft;inch", "1e-7 m -> um;nm", "1e15 s -> year;day;s", "5000 m -> m;mm",
+    // members in ascending or no particular order: each numeral still belongs to the name printed next to it
+    "90 min -> min;hour", "2.5 ft -> inch;ft", "100000 s -> hour;day;s;min", "5000 s -> s;min;hour", "1 mile -> inch;mile;ft", "100 inch -> ft;yard;inch", "3 day -> min;day;hour", "7 kg -> g;kg",
 ];
 
 const SUBST_COUNTS: [&str; 3] = ["1", "12", "(1|4)"];
-const SUBST_TARGETS: [&str; 8] = ["kg", "m", "J", "coulomb", "m^3", "s", "K", "kg/m^3"];
+// ... and targets with a constant of their own, which the reply has to show (`* 2 kilogram`)
+const SUBST_TARGETS: [&str; 13] = ["kg", "m", "J", "coulomb", "m^3", "s", "K", "kg/m^3", "2 kg", "1000 g", "2|3 kg", "2 m^3", "1|4 J"];
 
 const MODES: [&str; 7] = ["digits 10", "digits", "sci", "eng", "frac", "base 16", "digits 3 base 7"];
 
@@ -487,6 +490,57 @@ impl Space for C06 {
                             }
                         }
                     }
+                    // ... and every listed figure read back as rink itself reads it: numeral, the target's
+                    // constant and the printed unit must multiply out to the property (or, where the target
+                    // matched the property's other side, to its reciprocal)
+                    if d[1] == 0 {
+                        for pr in &r.properties {
+                            let v = &pr.value;
+                            let (num, exact) = match (&v.exact_value, &v.approx_value) {
+                                (Some(e), _) => (e.clone(), true),
+                                (None, Some(a)) => (a.clone(), false),
+                                _ => continue,
+                            };
+                            let unit = match &v.unit {
+                                Some(u) if !u.is_empty() => u.clone(),
+                                _ => match &v.dimensions {
+                                    Some(dm) if !dm.is_empty() => dm.clone(),
+                                    _ => continue,
+                                },
+                            };
+                            if num.contains('[') || num.contains("...") || !unit.chars().all(|ch| ch.is_ascii_alphanumeric() || " /^-_".contains(ch)) {
+                                continue;
+                            }
+                            let text = format!("({}) * ({}) / ({}) * ({})", num, v.factor.clone().unwrap_or_else(|| "1".into()), v.divfactor.clone().unwrap_or_else(|| "1".into()), unit);
+                            let shown = match eval_q(ctx, &text) {
+                                Ok(QueryReply::Number(p)) => p.raw_value,
+                                _ => None,
+                            };
+                            let reference = match eval_q(ctx, &format!("{} of {}", regdump::q(&pr.name), regdump::q(s))) {
+                                Ok(QueryReply::Number(p)) => p.raw_value,
+                                _ => None,
+                            };
+                            if let (Some(a), Some(b)) = (shown, reference) {
+                                let (da, db) = (dims_of(&a), dims_of(&b));
+                                let (fa, fb) = (a.value.to_f64(), b.value.to_f64());
+                                let want = if da == db {
+                                    fb
+                                } else if da == dims_pow(&db, -1) {
+                                    1.0 / fb
+                                } else {
+                                    continue;
+                                };
+                                judged += 1;
+                                let tol = if exact { 1e-12 } else { 1e-5 };
+                                if !((fa - want).abs() <= tol * want.abs()) {
+                                    out = out.viol(
+                                        "a property listed for a substance conversion does not denote the property (read back)",
+                                        format!("`{}` lists {} = {}, which reads as {:e} {}, but the property is {:e} {}", q, pr.name, pr.value, fa, dims_str(&da), want, dims_str(&da)),
+                                    );
+                                }
+                            }
+                        }
+                    }
                     if judged == 0 {
                         out.outcome = "counted substance conversion (nothing comparable)".into();
                         out.key = None;
@@ -503,6 +557,13 @@ impl Space for C06 {
             let q = LIST_QUERIES[self.fams.locate(idx).1[0] as usize];
             let ctx = self.ctx.get(fresh_ctx);
             let mut out = CaseOut::ok("unit list entries").key(hash64(&("list", q)));
+            // what the whole list has to add up to: the left-hand side evaluated on its own
+            let source: Option<(Rat, Dims)> = match eval_q(ctx, q.split(" -> ").next().unwrap_or("")) {
+                Ok(QueryReply::Number(p)) => p.raw_value.as_ref().and_then(|r| numeric_to_rat(&r.value).map(|v| (v, dims_of(r)))),
+                Ok(QueryReply::Duration(d)) => d.raw.raw_value.as_ref().and_then(|r| numeric_to_rat(&r.value).map(|v| (v, dims_of(r)))),
+                _ => None,
+            };
+            let mut total: Option<Rat> = Some(rat(0, 1));
             match eval_q(ctx, q) {
                 Ok(QueryReply::UnitList(l)) => {
                     for e in &l.list {
@@ -515,17 +576,29 @@ impl Space for C06 {
                         };
                         let part = match numeric_to_rat(&raw.value) {
                             Some(p) => p,
-                            None => continue,
+                            None => {
+                                total = None;
+                                continue;
+                            }
                         };
                         let uname: Vec<String> = raw.unit.iter().map(|(k, _)| k.to_string()).collect();
                         match uname.first().and_then(|n| ctx.lookup(n)).and_then(|uv| numeric_to_rat(&uv.value).map(|v| (v, dims_of(&uv)))) {
                             Some((uv, ud)) => {
+                                total = total.map(|t| t + part.clone() * uv.clone());
                                 let w = (part * uv, ud);
                                 for (sg, dt) in judge_parts(ctx, e, &w, 10, true, &format!("{} [entry {}]", q, uname[0])) {
                                     out = out.viol(format!("{} (unit-list entry)", sg), dt);
                                 }
                             }
-                            None => out = out.viol("unit-list entry's own unit does not resolve", format!("{}: {:?}", q, uname)),
+                            None => {
+                                total = None;
+                                out = out.viol("unit-list entry's own unit does not resolve", format!("{}: {:?}", q, uname))
+                            }
+                        }
+                    }
+                    if let (Some(t), Some((sv, _))) = (&total, &source) {
+                        if t != sv {
+                            out = out.viol("the entries of a unit list do not add up to the value converted (unit-list sum)", format!("`{}`: the entries, each read with the unit printed next to it, add up to {} base units, the value is {}", q, t, sv));
                         }
                     }
                 }
